@@ -143,8 +143,8 @@ def hash_mutable(obj) -> int:
             # try hashing the data buffer
             return hash(sha1(obj, usedforsecurity=False))
         except (ValueError, TypeError):
-            # otherwise, hash the internal dict
-            return hash_mutable(obj.__dict__)
+            # otherwise, hash the internal dict together with the class of the object
+            return hash((obj.__class__.__qualname__, hash_mutable(obj.__dict__)))
 
 
 def hash_readable(obj) -> str:
